@@ -1,16 +1,19 @@
 #!/bin/bash
 # run_seeded.sh [ids...] : run each seeded change (seeded/<id>/patch.diff) against the check of its property (quick tier);
 # prints one line per change: CAUGHT <keys> | MISSED. /repo is patched during each run and restored afterwards.
-cd /verif
+cd "$(dirname "$0")/.."
+HERE="$(pwd)"
+[ -n "${VP_RUN_REPO:-}" ] && export GWB_REPO="$VP_RUN_REPO"
+REPO="${GWB_REPO:-/repo}"
 ids="$@"; [ -z "$ids" ] && ids=$(ls seeded)
 mkdir -p work/seeded_runs
 for id in $ids; do
   prop=${id:0:3}
   out=work/seeded_runs/$id.txt
   rev=$(python3 -c "import json;print(json.load(open('seeded/$id/meta.json')).get('revert_first',''))" 2>/dev/null)
-  WITH_PATCH_REVERT="$rev" tools/with_patch.sh /verif/seeded/$id/patch.diff -- ./vcheck $prop --tier quick > $out 2>&1
+  WITH_PATCH_REVERT="$rev" tools/with_patch.sh "$HERE/seeded/$id/patch.diff" -- ./vcheck $prop --tier quick > $out 2>&1
   rc=$?
   keys=$(grep -E "^VIOLATION" $out | sed 's/.*(\(.*\), [0-9]* occurrence.*/\1/' | head -4 | tr '\n' ';')
   if [ $rc = 1 ] && [ -n "$keys" ]; then echo "$id CAUGHT $keys"; else echo "$id MISSED rc=$rc"; fi
 done
-[ -z "$(git -C /repo status --short -- source include tests)" ] || echo "WARNING: /repo not clean"
+[ -z "$(git -C "$REPO" status --short -- source include tests)" ] || echo "WARNING: $REPO not clean"
